@@ -22,7 +22,8 @@ pub struct BankToCustomerStatement {
 pub struct Statement {
     #[serde(rename = "Bal")]
     pub balance: Vec<Balance>,
-    #[serde(rename = "Ntry")]
+    // a statement without any entries is valid.
+    #[serde(rename = "Ntry", default)]
     pub entries: Vec<Entry>,
 }
 
@@ -60,6 +61,9 @@ pub enum BalanceCode {
     Opening,
     #[serde(rename = "CLBD")]
     Closing,
+    /// Other balance types such as CLAV (closing available), ITBD (interim booked), ...
+    #[serde(other)]
+    Other,
 }
 
 #[derive(Debug, Serialize, Deserialize, PartialEq, Eq)]
